@@ -43,6 +43,21 @@ Lemma reachable_inv (P : state -> Prop) :
   forall s, reachable s -> P s.
 Proof. intros H0 Hs s [tr Htr]. eapply exec_from_inv; eauto. Qed.
 
+(* the same, with reachability of the pre-state available in the step case *)
+Lemma reachable_inv_strong (P : state -> Prop) :
+  P (init c) ->
+  (forall s e s', reachable s -> P s -> step c s e = Some s' -> P s') ->
+  forall s, reachable s -> P s.
+Proof.
+  intros H0 Hs s [tr Htr]. revert s Htr. induction tr as [|e tr IH] using rev_ind; intros s Htr.
+  - unfold exec, exec_from in Htr. simpl in Htr. inversion Htr; subst. exact H0.
+  - unfold exec in Htr. rewrite exec_from_app in Htr.
+    destruct (exec_from c (init c) tr) as [s1|] eqn:E1; [|discriminate].
+    rewrite exec_from_cons in Htr. destruct (step c s1 e) as [s2|] eqn:E2; [|discriminate].
+    unfold exec_from in Htr. simpl in Htr. inversion Htr; subst.
+    eapply Hs; [exists tr; exact E1| |exact E2]. apply IH. exact E1.
+Qed.
+
 Lemma reachable_step s e s' : reachable s -> step c s e = Some s' -> reachable s'.
 Proof.
   intros [tr Htr] Hs. exists (tr ++ [e]). unfold exec in *. rewrite exec_from_app, Htr.
